@@ -170,7 +170,7 @@ def compare_step(model, real):
 
 
 def check_programs(ck, progs, cfg="hook", opts=None, timeout=None, sig_prefix="ModelMismatch", on_result=None,
-                   extra_cfgs=()):
+                   extra_cfgs=(), event_filter=None):
     """progs: list of dicts {name, steps:[('snip',src)|('reset',)], mods, natives, globals (bits), globals_f}.
     Violations are reported with the whole program as replay. Returns (checked, discarded)."""
     models = run_models(progs)
@@ -204,6 +204,8 @@ def check_programs(ck, progs, cfg="hook", opts=None, timeout=None, sig_prefix="M
                 ck.violation("%s(panic)" % sig_prefix, replay_of(p, c, "panic %s @ %s" % (res.get("panic_msg"), res.get("panic_loc")), m))
                 continue
             for ev in res.get("events", []):
+                if event_filter is not None and not event_filter(ev):
+                    continue
                 ck.violation(ev["sig"], replay_of(p, c, "%s %s" % (ev["kind"], ev["detail"]), m))
             problem = None
             for si, (ms, rs) in enumerate(zip(m["view"], res["steps"])):
